@@ -410,6 +410,10 @@ def plant_corners(spec, rng):
     if not (set(out["journeys"][ujn]["uj_steps"]) & others):
         for s_ in out["journeys"][ujn]["uj_steps"]:
             out["steps"][s_]["user_time_spent"] = Q(0, "hour")
+    # a journey that goes through one of its steps twice
+    uj0 = out["patterns"][pats[0]]["usage_journey"]
+    if rng.random() < 0.6 and len(out["journeys"][uj0]["uj_steps"]) < 5:
+        out["journeys"][uj0]["uj_steps"] = out["journeys"][uj0]["uj_steps"] + [rng.choice(out["journeys"][uj0]["uj_steps"])]
     placed = {j for s_ in out["steps"].values() for j in s_["jobs"]}
     if all(j in placed for j in out["jobs"]):
         src = rng.choice(list(out["jobs"]))
